@@ -360,11 +360,13 @@ theorem val_def (st : State) (k : Nat) : st.val k = (st.get k).getD [] := rfl
 
 /-- **Delta-codec law** (field level): loading `a`, then the delta `diff a b`, gives — id by id,
     "absent" and "empty" identified — what loading `b` gives. -/
-theorem delta_law_fields (v : Variant) (cmp : Nat → Bytes → Bytes → Bool) (hc : CmpExact cmp)
+theorem delta_law_fields_gen (v : Variant) (cmp : Nat → Bytes → Bytes → Bool)
     (init : State) (a b : List Field) (ha : (ids a).Nodup) (hb : (ids b).Nodup)
     (hinit : ∀ f ∈ a, (∀ g ∈ b, g.ty ≠ f.ty) → init.val f.ty = [])
     (k : Nat) :
-    (applyF (applyF init a) (diffF v cmp a b)).val k = (applyF init b).val k := by
+    (applyF (applyF init a) (diffF v cmp a b)).val k = (applyF init b).val k ∨
+    ∃ f ∈ a, ∃ g ∈ b, f.ty = k ∧ g.ty = k ∧ sameF cmp f g = true ∧
+      (applyF (applyF init a) (diffF v cmp a b)).val k = f.data ∧ (applyF init b).val k = g.data := by
   rw [diffF_eq_spec v cmp a b hb, val_def, val_def]
   by_cases hkb : ∃ g ∈ b, g.ty = k
   · obtain ⟨g, hg, hgk⟩ := hkb
@@ -384,6 +386,7 @@ theorem delta_law_fields (v : Variant) (cmp : Nat → Bytes → Bytes → Bool) 
       cases hs : sameF cmp f g with
       | false =>
         have hm := changed_mem v cmp a b hb f g hf hg (hgk.trans hfk.symm) hs
+        left
         rw [get_applyF_mem _ _ k g.data ⟨g, hm, hgk⟩ hD]
       | true =>
         have hno : ∀ e ∈ diffSpec v cmp a b, e.ty ≠ k := by
@@ -398,12 +401,14 @@ theorem delta_law_fields (v : Variant) (cmp : Nat → Bytes → Bytes → Bool) 
         rw [get_applyF_not_mem _ _ _ hno]
         rw [get_applyF_mem init a k f.data ⟨f, hf, hfk⟩
           (fun f' hf' e => by rw [unique_of_nodup a ha f f' hf hf' (e.trans hfk.symm)])]
-        simp only [sameF, Bool.and_eq_true] at hs
-        rw [hc _ _ _ hs.2]
+        right
+        exact ⟨f, hf, g, hg, hfk, hgk, hs, rfl, rfl⟩
     · have hnoa : ∀ f ∈ a, f.ty ≠ g.ty := fun f hf e => hka ⟨f, hf, e.trans hgk⟩
       have hm := new_mem v cmp a b g hg hnoa
+      left
       rw [get_applyF_mem _ _ k g.data ⟨g, hm, hgk⟩ hD]
   · have hnob : ∀ g ∈ b, g.ty ≠ k := fun g hg e => hkb ⟨g, hg, e⟩
+    left
     rw [get_applyF_not_mem init b k hnob]
     by_cases hka : ∃ f ∈ a, f.ty = k
     · obtain ⟨f, hf, hfk⟩ := hka
@@ -428,6 +433,17 @@ theorem delta_law_fields (v : Variant) (cmp : Nat → Bytes → Bytes → Bool) 
         · exact hnob e heb hek
         · exact hnob e heb hek
       rw [get_applyF_not_mem _ _ _ hno, get_applyF_not_mem _ _ _ hnoa]
+
+/-- **Delta-codec law** (field level) for an exact comparison. -/
+theorem delta_law_fields (v : Variant) (cmp : Nat → Bytes → Bytes → Bool) (hc : CmpExact cmp)
+    (init : State) (a b : List Field) (ha : (ids a).Nodup) (hb : (ids b).Nodup)
+    (hinit : ∀ f ∈ a, (∀ g ∈ b, g.ty ≠ f.ty) → init.val f.ty = [])
+    (k : Nat) :
+    (applyF (applyF init a) (diffF v cmp a b)).val k = (applyF init b).val k := by
+  rcases delta_law_fields_gen v cmp init a b ha hb hinit k with h | ⟨f, _, g, _, _, _, hs, e1, e2⟩
+  · exact h
+  · simp only [sameF, Bool.and_eq_true] at hs
+    rw [e1, e2, hc _ _ _ hs.2]
 
 
 /-! ### reader on encoded bytes -/
